@@ -192,6 +192,7 @@ SOURCE_TIE = {
     'C08': ['best_gmm'],
     'C17': ['significant_cloud'],
     'C18': ['okta2code', 'height2code', 'perc2okta'],
+    'C20': ['okta2symb'],
 }
 _SRC_OFF = set()   # properties whose source-level theorem file is left out of this run (a function is untranslatable)
 
@@ -412,7 +413,7 @@ class Check:
             rep = regenerate_sources()
             for fn in fns:
                 r = rep[fn]
-                tie[fn] = ('translated from the current source (sha ' + r['sha'] + '), equality with the model proved'
+                tie[fn] = ('translated from the current source (sha ' + r['sha'] + '), ' + ('equality with the model proved' if fn != 'okta2symb' else 'the theorems of Props/C20Src.lean are stated about it directly')
                            ) if r['ok'] else 'NOT TRANSLATABLE: ' + str(r['reason'])
                 if not r['ok']:
                     _SRC_OFF.add(self.prop)
